@@ -18,6 +18,17 @@
    after the Vi end-of-line cursor correction; for every other handler: an
    arbitrary effect).  [DRedo] is a direct call of Buffer.redo() between two
    key events (no default binding calls it).
+   [UndoKey h n nav] is a dispatch of an undo key whose effect is COMPUTED by
+   a small handler model instead of being a payload: named_commands.undo /
+   vi._undo call Buffer.undo() n times and touch nothing else, then
+   _fix_vi_cursor_position moves the cursor one to the left when Vi
+   navigation mode is on ([nav]), the cursor is at the end of its line and
+   the line is not empty.
+   [Cpr] is a cursor position report (Keys.CPRResponse) arriving from the
+   terminal: KeyProcessor.process_keys hands it to _handle_cpr_response, which
+   calls the CPR binding directly - no _call_handler, so no snapshot and
+   _previous_handler (and arg, previous key sequence) stay as they are; the
+   CPR handler (bindings/cpr.py) only talks to the renderer.
    The theorems are for ANY table; Model/C07_Table.v instantiates it. *)
 From Coq Require Import ZArith List Bool.
 From PTK Require Import Lib.Sx Lib.Py Model.C07_Undo.
@@ -36,7 +47,9 @@ Definition lookup (tbl : list row) (h : Z) : row :=
 
 Inductive kev :=
 | Key (h : Z) (n : Z) (t : str) (c : Z)
-| DRedo.
+| DRedo
+| UndoKey (h : Z) (n : Z) (nav : bool)
+| Cpr.
 
 Record kst := mkkst { kbuf : ust; kprev : option Z }.
 
@@ -50,21 +63,6 @@ Definition save_before (tbl : list row) (prev : option Z) (h : Z) : bool :=
   else if cls =? 2 then negb (is_repeat prev h)
   else true.
 
-(* What one dispatch does to the buffer, as a list of buffer-level
-   operations: [Cmd save (text) (cursor)] with the CURRENT text and cursor is
-   "snapshot if save, handler has not touched the text yet". *)
-Definition expand (tbl : list row) (s : kst) (e : kev) : list uop :=
-  match e with
-  | Key h n t c =>
-      let act := r_act (lookup tbl h) in
-      let body := if act =? 1 then repeat Undo (Z.to_nat n)
-                  else if act =? 2 then repeat Redo (Z.to_nat n)
-                  else [] in
-      Cmd (save_before tbl (kprev s) h) (utext (kbuf s)) (ucur (kbuf s))
-        :: body ++ [Cmd false t c]
-  | DRedo => [Redo]
-  end.
-
 (* The dispatch itself, as _call_handler runs it: snapshot?, then the
    handler's undo()/redo() calls, then whatever else the dispatch does. *)
 Definition kbody (tbl : list row) (s : kst) (h n : Z) : ust :=
@@ -75,10 +73,51 @@ Definition kbody (tbl : list row) (s : kst) (h n : Z) : ust :=
   else if act =? 2 then iter_op Redo (Z.to_nat n) s1
   else s1.
 
+(* KeyProcessor._fix_vi_cursor_position: the cursor after the fix-up.
+     if vi_navigation_mode() and document.is_cursor_at_the_end_of_line
+        and len(document.current_line) > 0:  buff.cursor_position -= 1
+   is_cursor_at_the_end_of_line: current_char in ("\n", "").  At the end of
+   the line, current_line is the part before the cursor. *)
+Definition fix_vi_cursor (nav : bool) (b : ust) : Z :=
+  let t := utext b in
+  let c := ucur b in
+  let at_eol := match index t c with Some ch => ch =? NL | None => true end in
+  let line_nonempty :=
+    (0 <? c) && match index t (c - 1) with Some ch => negb (ch =? NL) | None => false end in
+  if nav && at_eol && line_nonempty then c - 1 else c.
+
+(* bindings/cpr.py: row, col = ...; event.app.renderer.report_absolute_cursor_row(row) *)
+Definition cpr_handler (b : ust) : ust := b.
+
 Definition kstep (tbl : list row) (s : kst) (e : kev) : kst :=
   match e with
   | Key h n t c => mkkst (set_state (kbody tbl s h n) t c) (Some h)
   | DRedo => mkkst (redo (kbuf s)) (kprev s)
+  | UndoKey h n nav =>
+      let b := kbody tbl s h n in
+      mkkst (set_state b (utext b) (fix_vi_cursor nav b)) (Some h)
+  | Cpr => mkkst (cpr_handler (kbuf s)) (kprev s)
+  end.
+
+(* What one event does to the buffer, as a list of buffer-level operations:
+   [Cmd save (text) (cursor)] with the CURRENT text and cursor is "snapshot if
+   save, handler has not touched the text yet". *)
+Definition expand_key (tbl : list row) (s : kst) (h n : Z) (t : str) (c : Z) : list uop :=
+  let act := r_act (lookup tbl h) in
+  let body := if act =? 1 then repeat Undo (Z.to_nat n)
+              else if act =? 2 then repeat Redo (Z.to_nat n)
+              else [] in
+  Cmd (save_before tbl (kprev s) h) (utext (kbuf s)) (ucur (kbuf s))
+    :: body ++ [Cmd false t c].
+
+Definition expand (tbl : list row) (s : kst) (e : kev) : list uop :=
+  match e with
+  | Key h n t c => expand_key tbl s h n t c
+  | DRedo => [Redo]
+  | UndoKey h n nav =>
+      let b := kbody tbl s h n in
+      expand_key tbl s h n (utext b) (fix_vi_cursor nav b)
+  | Cpr => []
   end.
 
 Definition krun (tbl : list row) (s : kst) (evs : list kev) : kst :=
@@ -95,7 +134,11 @@ Fixpoint expand_all (tbl : list row) (s : kst) (evs : list kev) : list uop :=
   end.
 
 Definition kev_ok (e : kev) : Prop :=
-  match e with Key h n t c => 0 <= c <= len t /\ 0 <= n | DRedo => True end.
+  match e with
+  | Key h n t c => 0 <= c <= len t /\ 0 <= n
+  | UndoKey h n nav => 0 <= n
+  | DRedo | Cpr => True
+  end.
 
 (* "A dispatch that is not an edit leaves the text alone": what the handlers
    of class-0 bindings (the Vi undo key, the CPR handler) and the residual
@@ -106,7 +149,7 @@ Definition quiet (tbl : list row) (s : kst) (e : kev) : Prop :=
   | Key h n t c =>
       (r_act (lookup tbl h) <> 0 \/ r_cls (lookup tbl h) = 0) ->
       t = utext (kbody tbl s h n)
-  | DRedo => True
+  | DRedo | UndoKey _ _ _ | Cpr => True
   end.
 
 Fixpoint all_quiet (tbl : list row) (s : kst) (evs : list kev) : Prop :=
@@ -120,7 +163,8 @@ Definition tbl_sane (tbl : list row) : Prop :=
   forall h, r_cls (lookup tbl h) = 2 -> r_act (lookup tbl h) = 0.
 
 (* ---- wire format ---- *)
-Definition dec_kev (nrows : Z) (x : sx) : option kev :=
+Definition dec_kev (tbl : list row) (x : sx) : option kev :=
+  let nrows := len tbl in
   match x with
   | L [A 1; A h; A n; t; A c] =>
       match as_str t with
@@ -130,6 +174,14 @@ Definition dec_kev (nrows : Z) (x : sx) : option kev :=
       | None => None
       end
   | L [A 2] => Some DRedo
+  | L [A 3; A h; A n; nav] =>
+      match as_bool nav with
+      | Some nv =>
+          if (0 <=? n) && (0 <=? h) && (h <? nrows) && (r_act (lookup tbl h) =? 1)
+          then Some (UndoKey h n nv) else None
+      | None => None
+      end
+  | L [A 4] => Some Cpr
   | _ => None
   end.
 
@@ -139,12 +191,15 @@ Fixpoint run_kevs (tbl : list row) (s : kst) (evs : list kev) : list sx :=
   | [] => []
   | e :: r =>
       let s' := kstep tbl s e in
-      let sv := match e with Key h _ _ _ => save_before tbl (kprev s) h | DRedo => false end in
+      let sv := match e with
+                | Key h _ _ _ | UndoKey h _ _ => save_before tbl (kprev s) h
+                | DRedo | Cpr => false
+                end in
       L [sx_bool sv; enc_ust (kbuf s')] :: run_kevs tbl s' r
   end.
 
 Definition run_C07_keys (tbl : list row) (t : sx) (cur : Z) (evs : list sx) : sx :=
-  match as_str t, map_opt (dec_kev (len tbl)) evs with
+  match as_str t, map_opt (dec_kev tbl) evs with
   | Some t', Some evs' =>
       if (0 <=? cur) && (cur <=? len t') then L (run_kevs tbl (kfresh t' cur) evs')
       else bad_case
